@@ -21,9 +21,9 @@ ID = 'C07'
 COQ_PROPS = 'Props/C07.v'
 THEOREMS = ['C07_validb_exact', 'C07_make_empty', 'C07_make_empty_total', 'C07_subset', 'C07_merge', 'C07_filter',
             'C07_clear_slices', 'C07_inject', 'C07_inject_nondegenerate_refuted', 'C07_closure', 'C07_merge_shape',
-            'C07_subset_shape']
+            'C07_subset_shape', 'C07_conversion_valid']
 ALLOWED_AXIOMS = []
-TABLES = ['t_classes', 't_ext_tol']
+TABLES = ['t_classes', 't_ext_tol', 't_stack', 't_filter']
 TRUSTED_BASE = [
     'hand-written Gallina model coq/Ext/Model.v (make_empty, get_subset, from_sequence and everything below them) and '
     'coq/Ext/Ops.v (filter_meta, clear_slice_meta, the nitool inject logic, op sequences), tied to the code by the '
@@ -227,6 +227,19 @@ def _check(ext):
     return out
 
 
+def still_valid(ext):
+    """None, or why this extension is not (any more) a valid extension for its own recorded shape"""
+    c = _check(ext)
+    if not c['valid']:
+        return 'fails check_valid: %s' % c.get('valid_msg')
+    if not c['json']:
+        return 'cannot be serialised: %s' % c.get('json_msg')
+    try:
+        return check_rules(ext_to_json(ext))
+    except Exception as e:      # noqa: BLE001
+        return 'cannot be abstracted: %s' % str(e)[:160]
+
+
 def _err_obs(e):
     name = type(e).__name__
     if name == 'ValueError' and str(e).startswith('abs:'):
@@ -277,12 +290,16 @@ def run_ops(case):
                           % (type(e).__name__, str(e)[:120])}, 'steps': []}
     start = _check(ext)
     steps = []
-    for op in case['ops']:
+    live = [('the start extension', ext)]       # every extension produced so far (inputs, partners, results), by identity
+    for si, op in enumerate(case['ops']):
         def go():
             if op['op'] == 'subset':
                 r = ext.get_subset(op['dim'], op['idx'])
             elif op['op'] == 'merge':
-                seq = [build_ext(b) for b in op['before']] + [ext] + [build_ext(a) for a in op['after']]
+                bs, as_ = [build_ext(b) for b in op['before']], [build_ext(a) for a in op['after']]
+                for j, b in enumerate(bs + as_):
+                    live.append(('partner %d of step %d' % (j, si), b))
+                seq = bs + [ext] + as_
                 aff = None if op.get('aff') is None else np.array(op['aff'], dtype=float)
                 r = dcmmeta.DcmMetaExtension.from_sequence(seq, op['dim'], aff, op.get('sdim_arg'))
             elif op['op'] == 'filter':
@@ -306,7 +323,19 @@ def run_ops(case):
         steps.append(o)
         if 'err' in o:
             break
+        if not any(x is r for _, x in live):
+            live.append(('the result of step %d' % si, r))
         ext = r
+        # everything produced earlier must still be a valid extension (for its own recorded shape)
+        stale = []
+        for label, x in live:
+            if x is r:
+                continue
+            m = still_valid(x)
+            if m:
+                stale.append([label, m])
+        if stale:
+            o['stale'] = stale
     return {'start': start, 'steps': steps}
 
 
@@ -382,6 +411,8 @@ def oracle_ops(case, obs):
         m = check_rules(R)
         if m:
             return 'step %d (%s): %s' % (i, name, m)
+        for label, why in s.get('stale', []):
+            return 'after step %d (%s) %s, produced earlier, %s' % (i, name, label, why)
         if name == 'subset':
             shape = subset_shape(shape, op['dim'])
         elif name == 'merge':
@@ -678,7 +709,271 @@ class DegenPart:
         return True
 
 
-PARTS = [OpsPart, WrapPart, DegenPart]
+# ------------------------------------------------------------------------------------------ stack conversion
+
+from props import convmeta as M          # noqa: E402  (read-only imports: generators / runner / Coq printer of C01)
+from props import stacklib as L          # noqa: E402
+
+AXIS_ORDERS = ['LAS', 'RSA', 'ALS', 'PSR', 'SLA', 'IRP', 'ASL', 'SPL', 'RAS', 'LSA', 'SAL', 'ALS']   # all six axis orders, twice
+
+
+def gen_conv_case(rng, tier, orient, order, shape_class=None):
+    for _ in range(200):
+        c = M.gen_case(rng, tier, shape_class=shape_class, orders=[order])
+        if c['orient'] == orient:
+            break
+    c['kind'] = 'conv/%s/%s/%s' % (c['orient'], order or 'none', c['kind'].split('/')[-1])
+    return c
+
+
+def stacking_axes(case, arr):
+    """the spatial axes of the output array along which every plane (per time point / vector component) is exactly the pixel
+    set of one source file: where the source slices really are stacked (pixel values identify their file)"""
+    import numpy as np
+    a = np.asarray(arr)
+    while a.ndim < 5:
+        a = a.reshape(a.shape + (1,))
+    sigs = set()
+    for spec in case['files']:
+        npx = spec['rows'] * spec['cols']
+        vals = (np.arange(npx, dtype=np.uint32) * 7 + 31 * spec['id'] + 5) % 4000
+        sigs.add(tuple(sorted(int(x) for x in vals)))
+    out = []
+    for ax in range(3):
+        ok, seen = True, set()
+        for v in range(a.shape[4]):
+            for t in range(a.shape[3]):
+                for i in range(a.shape[ax]):
+                    key = tuple(sorted(int(x) for x in np.take(a[:, :, :, t, v], i, axis=ax).ravel()))
+                    if key not in sigs or key in seen:
+                        ok = False
+                        break
+                    seen.add(key)
+                if not ok:
+                    break
+            if not ok:
+                break
+        if ok and len(seen) == len(sigs):
+            out.append(ax)
+    return out
+
+
+def _convert(dcmstack, dcmmeta, st, case):
+    if case['via'] == 'wrapper':
+        return st.to_nifti_wrapper(case['vo'])
+    return dcmmeta.NiftiWrapper(st.to_nifti(case['vo'], embed_meta=True))
+
+
+def run_conv07(case):
+    import warnings
+    warnings.simplefilter('ignore')
+    import numpy as np
+    import dcmstack
+    from dcmstack import dcmmeta
+    out = {}
+    try:
+        out['c01'] = M.run_conv(case)               # the observation the conversion model (Conv/CorrMeta.v) is compared with
+    except Exception as e:      # noqa: BLE001  (e.g. the output planes are not where the header says the slices are)
+        out['c01'] = {'conv_crash': '%s: %s' % (type(e).__name__, str(e)[:200])}
+    st, dss, wid, truth, affs = M.build_stack(dcmstack, case)
+    per_file = [(wid[id(fi[0])], fi[0].meta_ext) for fi in st._files_info]
+    out['files_before'] = [[fid, still_valid(x)] for fid, x in per_file]
+    try:
+        w = _convert(dcmstack, dcmmeta, st, case)
+    except Exception as e:      # noqa: BLE001
+        out['err'] = '%s: %s' % (type(e).__name__, str(e)[:200])
+        return out
+    out['whole'] = _wobs(w)
+    out['axes'] = stacking_axes(case, np.asanyarray(w.nii_img.dataobj))
+    out['files_after'] = [[fid, still_valid(x)] for fid, x in per_file]
+    out['whole_again'] = still_valid(w.meta_ext)
+    return out
+
+
+def oracle_conv(case, obs):
+    if 'crash' in obs:
+        return 'harness: %s' % obs.get('msg')
+    for fid, m in obs.get('files_before', []):
+        if m:
+            return 'the extension made for source file %d (from_dicom_wrapper) %s' % (fid, m)
+    if 'err' in obs:
+        return None             # nothing was produced (refusals / crashes of the conversion are C11's and C01's)
+    m = _agree(obs['whole'], 'DicomStack.to_nifti(%r, embed_meta=True)' % case['vo'])
+    if m:
+        return m
+    if obs['whole']['ext']['sdim'] not in obs['axes']:
+        return ('to_nifti(%r): the extension and the header say the slice dimension is %r, but the source slices are stacked along '
+                'axis %s of the output array' % (case['vo'], obs['whole']['ext']['sdim'], obs['axes']))
+    for fid, m in obs.get('files_after', []):
+        if m:
+            return 'after the conversion the extension of source file %d, produced earlier, %s' % (fid, m)
+    return None
+
+
+class ConvPart(M._Base):
+    NAME = 'conv'
+    SHARD = 10
+    RULE = ('DicomStack.to_nifti(order, embed_meta=True) / to_nifti_wrapper(order) on synthetic complete grids (stacklib / convmeta '
+            'generators: 3-5 D incl. (x,y,z,1,n), explicit / guessed ordering, hand-built and extracted metadata) for axial, '
+            'sagittal, coronal and oblique series x every one of the six output axis orders (cyclic permutations included) and no '
+            'reordering; the true stacking axis is located through the pixel values; Coq: the conversion model Conv/CorrMeta.v')
+
+    @staticmethod
+    def gen_cases(rng, tier):
+        out = []
+        reps = 1 if tier == 'quick' else 4
+        for _ in range(reps):
+            for orient in ('ax', 'sag', 'cor'):
+                for order in [''] + AXIS_ORDERS[:6] + ([rng.choice(M.ALL_ORDERS) for _ in range(2)]):
+                    out.append(gen_conv_case(rng, tier, orient, order, shape_class=rng.choice([None, None, '5d', 'vec_t1', '3d'])))
+        for _ in range(20 if tier == 'quick' else 200):
+            out.append(gen_conv_case(rng, tier, rng.choice(sorted(L.ORIENTS)), rng.choice(M.ALL_ORDERS + AXIS_ORDERS),
+                                     shape_class=rng.choice([None, '5d', 'vec_t1', 's1'])))
+        return out
+
+    run_impl = staticmethod(run_conv07)
+
+    @staticmethod
+    def coq_case(case, obs):
+        return M.coq_case(case, obs.get('c01') if isinstance(obs, dict) else None)
+
+    oracle = staticmethod(oracle_conv)
+
+    @staticmethod
+    def signature(case, obs, msg):
+        return 'conv/%s/%s' % (case.get('orient'), 'slice-dim' if 'stacked along' in msg else 'valid')
+
+    @staticmethod
+    def nontrivial(case, obs):
+        return isinstance(obs, dict) and 'whole' in obs
+
+
+# ------------------------------------------------------------------------------------------ converted volumes split, merged, re-used
+
+def run_reuse(case):
+    """to_nifti_wrapper -> split along the last axis -> merge the pieces -> merge the SAME pieces again (other order / other
+    axis) -> split along the slice axis and merge back; after every step every wrapper produced so far is validated again."""
+    import warnings
+    warnings.simplefilter('ignore')
+    import numpy as np
+    import dcmstack
+    from dcmstack import dcmmeta
+    st = M.build_stack(dcmstack, case)[0]
+    live, steps = [], []
+
+    def settle(name, news):
+        for label, w in news:
+            live.append((label, w))
+        bad = []
+        for label, w in live:
+            o = _wobs(w)
+            m = _agree(o, label, full=False)
+            if m:
+                bad.append(m)
+        steps.append({'step': name, 'bad': bad})
+
+    def attempt(name, f):
+        try:
+            settle(name, f())
+            return True
+        except Exception as e:      # noqa: BLE001
+            steps.append({'step': name, 'exc': '%s: %s' % (type(e).__name__, str(e)[:160]), 'bad': []})
+            settle(name + ' (after the exception)', [])
+            return False
+
+    try:
+        w = _convert(dcmstack, dcmmeta, st, case)
+    except Exception as e:      # noqa: BLE001
+        return {'err': '%s: %s' % (type(e).__name__, str(e)[:200])}
+    for i, fi in enumerate(st._files_info[:4]):
+        pass
+    settle('to_nifti_wrapper', [('the converted image', w)])
+    nd = len(w.nii_img.shape)
+    box = {}
+    if nd > 3:
+        last = nd - 1
+        attempt('split(%d)' % last, lambda: [('piece %d of split(%d)' % (i, last), p) for i, p in
+                                             enumerate(box.setdefault('pieces', list(w.split(last))))])
+        ps = box.get('pieces', [])
+        if len(ps) >= 1:
+            attempt('from_sequence(pieces, %d)' % last, lambda: [('the re-merged image', dcmmeta.NiftiWrapper.from_sequence(ps, last))])
+            attempt('from_sequence(reversed pieces, %d)' % last,
+                    lambda: [('the image merged from the same pieces in reverse', dcmmeta.NiftiWrapper.from_sequence(ps[::-1], last))])
+            other = 4 if len(ps[0].nii_img.shape) == 3 else None
+            if other is not None:
+                attempt('from_sequence(pieces, 4)', lambda: [('the same pieces merged as vector components',
+                                                               dcmmeta.NiftiWrapper.from_sequence(ps, 4))])
+            attempt('DcmMetaExtension.from_sequence(piece extensions) twice', lambda: [
+                ('an image carrying the merged piece extensions (%d)' % j,
+                 _attach(dcmmeta, ps, last)) for j in range(2)])
+    sd = w.nii_img.header.get_dim_info()[2]
+    if sd is not None and w.nii_img.shape[sd] > 1:
+        attempt('split(slice axis)', lambda: [('slice %d' % i, p) for i, p in enumerate(box.setdefault('slices', list(w.split(sd))))])
+        sl = box.get('slices', [])
+        if sl:
+            attempt('from_sequence(slices)', lambda: [('the image re-merged from its slices', dcmmeta.NiftiWrapper.from_sequence(sl, sd))])
+    return {'steps': steps}
+
+
+def _attach(dcmmeta, pieces, dim):
+    """an image of the merged shape carrying DcmMetaExtension.from_sequence of the pieces' extensions"""
+    import numpy as np
+    import nibabel as nb
+    ext = dcmmeta.DcmMetaExtension.from_sequence([p.meta_ext for p in pieces], dim)
+    nii = nb.Nifti1Image(np.zeros(tuple(ext.shape), dtype=np.int16), np.array(ext.affine, dtype=float))
+    nii.header.set_dim_info(slice=ext.slice_dim)
+    nii.header.extensions.append(ext)
+    return dcmmeta.NiftiWrapper(nii)
+
+
+def oracle_reuse(case, obs):
+    if 'crash' in obs:
+        return 'harness: %s' % obs.get('msg')
+    if 'err' in obs:
+        return None
+    for s in obs['steps']:
+        for m in s['bad']:
+            return 'after %s: %s' % (s['step'], m)
+    return None
+
+
+class ReusePart:
+    NAME = 'reuse'
+    CORR_CHECK = None
+    IMPL_TIMEOUT = 120
+    RULE = ('converted 4-D / 5-D stacks (to_nifti_wrapper, every voxel order) split along time / vector, the pieces merged, merged '
+            'again in reverse and along the other axis, their extensions merged twice, the image split along its slice axis and '
+            'merged back; after EVERY step EVERY wrapper produced so far (the converted image, all pieces, all merge results) is '
+            'validated again: check_valid, to_json, value counts for its own shape, shape / slice dim / 3x3 affine agreement with '
+            'its image; oracle only')
+
+    @staticmethod
+    def gen_cases(rng, tier):
+        out = []
+        for _ in range(40 if tier == 'quick' else 300):
+            c = M.gen_case(rng, tier, shape_class=rng.choice([None, '5d', '5d', 'vec_t1']), orders=[rng.choice(M.ALL_ORDERS)])
+            c['via'] = 'wrapper'
+            c['kind'] = 'reuse/' + c['kind']
+            out.append(c)
+        return out
+
+    run_impl = staticmethod(run_reuse)
+    oracle = staticmethod(oracle_reuse)
+
+    @staticmethod
+    def signature(case, obs, msg):
+        return 'reuse/' + msg.split(':')[0][:40].replace(' ', '-')
+
+    @staticmethod
+    def nontrivial(case, obs):
+        return isinstance(obs, dict) and len(obs.get('steps', [])) > 2
+
+    @staticmethod
+    def shrink(case):
+        return M.shrink(case)
+
+
+PARTS = [OpsPart, WrapPart, DegenPart, ConvPart, ReusePart]
 
 # [HOOK, image level] The image halves of C07 (extension geometry == image geometry after NiftiWrapper.from_sequence / split;
 # theorems Props/C07img.v, model coq/Wrapper/*, parts in props/imglib.py, open finding N8) belong to the image-level agent and
@@ -695,3 +990,11 @@ THEOREMS = list(THEOREMS) + imglib.THEOREMS['Props/C07img.v']
 PARTS = list(PARTS) + [imglib.for_property(p, 'C07') for p in (imglib.ImgMergePart, imglib.ImgSplitPart, imglib.ImgRoundTripPart)]
 TRUSTED_BASE = list(TRUSTED_BASE) + imglib.TRUSTED_BASE
 ASSUMPTIONS = list(ASSUMPTIONS) + imglib.ASSUMPTIONS
+
+
+# source tie (integrator): the helper functions the extension model rests on are TRANSLATED from the Python AST on every
+# run (tools/tables/py2coq.py, t_src_ext.py -> Generated/T_src_ext.v) and the hand models are proved equal to the translation
+COQ_PROPS = (list(COQ_PROPS) if isinstance(COQ_PROPS, (list, tuple)) else [COQ_PROPS]) + ['Props/SRC.v']
+THEOREMS = list(THEOREMS) + ['SRC_valid_classes', 'SRC_class_valid', 'SRC_multiplicity', 'SRC_is_constant', 'SRC_is_repeating', 'SRC_const_period', 'SRC_n_slices']
+TABLES = sorted(set(list(globals().get('TABLES') or ['t_classes', 't_ext_tol']) + ['t_src_ext', 't_classes', 't_ext_tol']))
+TRUSTED_BASE = list(TRUSTED_BASE) + ['tools/tables/py2coq.py + t_src_ext.py: typed fail-closed translator of is_constant, is_repeating, get_valid_classes, get_multiplicity, _get_const_period, n_slices into Gallina; coq/Common/PyOps2.v as the meaning of the translated primitives']
